@@ -1363,3 +1363,103 @@ func emptyWhenBoundsCross(p *pwPath, scan *ssa.Function, res ssa.Value) bool {
 	}
 	return false
 }
+
+// identifierBytesRuleSSA (C18.R9): the identifier scanner steps over letters, digits, '_', '-' and '.' only. Whether two
+// tokens may be written without a blank between them must not change what they are: a name that swallows a byte
+// which begins another token ("a!=b" read as the name "a!" and "=") makes the blank significant. Decided like the
+// whitespace set: the scanner that the token function runs for a letter is walked once for each of the 256 byte
+// values under the cursor; the bytes for which it moves the cursor are its alphabet.
+func identifierBytesRuleSSA(r *Run, rule string) {
+	w := r.W
+	lm := w.lexSSA()
+	if !lm.ok() {
+		r.Lost(rule, lm.why())
+		return
+	}
+	var scan *ssa.Function
+	for _, tp := range lm.tokenPaths(lm.inside, 'a', true) {
+		if tp.litScanFn == nil || tp.p == nil {
+			continue
+		}
+		scan = tp.litScanFn
+		// a scanner that is handed its alphabet (readWhile(accept)) is walked from the function that hands it over
+		for _, ev := range tp.p.events {
+			if c, ok := ev.(*ssa.Call); ok && c.Call.StaticCallee() == tp.litScanFn {
+				if outer := origInstr(c).Parent(); outer != nil && outer != lm.inside && outer != lm.outer && outer.Parent() == nil {
+					scan = outer
+				}
+			}
+		}
+	}
+	if scan == nil {
+		r.Lost(rule, "the scanner the token function runs for a letter")
+		return
+	}
+	inline := func(caller, callee *ssa.Function) bool {
+		return (pkgOf(callee) == pkgOf(scan) || callee.Parent() != nil) && callee != lm.readChar && callee != lm.peekChar && callee != lm.inside && callee != lm.outer
+	}
+	var set []byte
+	complete := true
+	for b := 1; b < 256; b++ {
+		hook := func(p *pwPath, ld *ssa.UnOp) (constant.Value, bool) {
+			if lm.isFieldLoad(p, ld, lm.chIdx) {
+				reads, _ := lm.moves(p, len(p.events))
+				if reads == 0 {
+					return constant.MakeInt64(int64(b)), true
+				}
+			}
+			return nil, false
+		}
+		pw := &pathWalker{loadHook: hook, unroll1: true, inline: inline}
+		pw.walk(scan)
+		if pw.overflow {
+			complete = false
+		}
+		steps := false
+		for _, p := range pw.paths {
+			for _, ev := range p.events {
+				if c, ok := ev.(*ssa.Call); ok && c.Call.StaticCallee() == lm.readChar {
+					steps = true
+				}
+			}
+		}
+		if steps {
+			set = append(set, byte(b))
+		}
+	}
+	var want []byte
+	for b := 1; b < 256; b++ {
+		c := byte(b)
+		if c >= '0' && c <= '9' || c >= 'a' && c <= 'z' || c >= 'A' && c <= 'Z' || c == '_' || c == '-' || c == '.' {
+			want = append(want, c)
+		}
+	}
+	name := ssaName(scan)
+	pos := w.Pos(scan.Pos())
+	switch {
+	case !complete:
+		r.Bad(rule, name, "alphabet of names", pos, "the paths of the identifier scanner cannot be enumerated")
+	case string(set) == string(want):
+		r.Ok(rule, name, "alphabet of names {letters, digits, _, -, .}", pos, "scanner walked for all 256 byte values: it steps over nothing else")
+	default:
+		var extra, missing []byte
+		in := map[byte]bool{}
+		for _, c := range set {
+			in[c] = true
+		}
+		wanted := map[byte]bool{}
+		for _, c := range want {
+			wanted[c] = true
+			if !in[c] {
+				missing = append(missing, c)
+			}
+		}
+		for _, c := range set {
+			if !wanted[c] {
+				extra = append(extra, c)
+			}
+		}
+		r.Bad(rule, name, fmt.Sprintf("alphabet of names: also %q, not %q", string(extra), string(missing)), pos,
+			"a name (a path) is made of letters, digits, '_', '-' and '.': a scanner that also steps over a byte which begins another token glues that token to the name when no blank separates them (a!=b), so removing a blank changes what is lexed")
+	}
+}
